@@ -405,6 +405,7 @@ func parallelChunks(r *report.R, n int, fn func(i int, t *tally), prefix string)
 // (and through Context.ResponseFormat when the default is "").
 func typeSweep(r *report.R, name string, withAbsent bool, sp space, ols []offerList, defs []string) {
 	var nHeaders atomic.Int64
+	var sampled atomic.Int32 // at most 2 samples per sweep
 	one := func(h *hdr, i int, t *tally) {
 		nHeaders.Add(1)
 		c := Case{Via: "type", Absent: h.absent, Lines: h.lines, WS: h.ws}
@@ -439,7 +440,7 @@ func typeSweep(r *report.R, name string, withAbsent bool, sp space, ols []offerL
 				}
 			}
 		}
-		if len(ols) > 0 && r.WantSample() && (i+int(uint64(r.Seed)%9973))%9973 == 0 {
+		if len(ols) > 0 && (i+int(uint64(r.Seed)%499))%499 == 7 && sampled.Add(1) <= 2 {
 			ol := &ols[(i*7)%len(ols)]
 			cc := c
 			cc.Offers, cc.Default = ol.raw, defs[0]
@@ -462,7 +463,11 @@ func typeSweep(r *report.R, name string, withAbsent bool, sp space, ols []offerL
 func encodingSweep(r *report.R, name string, withAbsent bool, sp space, ols [][]string) {
 	var nHeaders atomic.Int64
 	one := func(h *hdr, t *tally) {
-		nHeaders.Add(1)
+		if n := nHeaders.Add(1); n == 700+r.Seed%100 && len(ols) > 5 {
+			c := Case{Via: "encoding", Absent: h.absent, Lines: h.lines, WS: h.ws, Offers: ols[5]}
+			_, _, observed, _ := checkFull(c)
+			r.Sample(map[string]any{"case": c, "header": prepare(&c).lines, "observed": observed})
+		}
 		c := Case{Via: "encoding", Absent: h.absent, Lines: h.lines, WS: h.ws}
 		p := prepare(&c)
 		for _, ol := range ols {
@@ -494,6 +499,7 @@ func encodingSweep(r *report.R, name string, withAbsent bool, sp space, ols [][]
 
 func handlerSweep(r *report.R, name string, configs []Case, hs []hdr) {
 	var realised, builds atomic.Int64
+	var sampled atomic.Int32
 	enum.Parallel(len(configs), outOfBudget(r), func(ci int) {
 		cfg := configs[ci]
 		a := buildAPI(cfg.Offers, cfg.Default)
@@ -530,7 +536,7 @@ func handlerSweep(r *report.R, name string, configs []Case, hs []hdr) {
 			if cl != "" {
 				r.Fail(cl, what, c)
 			}
-			if r.WantSample() && (ci*len(hs)+i+int(uint64(r.Seed)%4099))%4099 == 0 {
+			if (ci*len(hs)+i+int(uint64(r.Seed)%4099))%4099 == 11 && sampled.Add(1) <= 3 {
 				r.Sample(map[string]any{"case": c, "header": p.lines, "observed": res.String()})
 			}
 		}
@@ -649,7 +655,7 @@ func rawSweep(r *report.R, name string, sp rawSpace) {
 				r.Fail(cl, what, cc)
 			}
 		}
-		if r.WantSample() && (i+int(uint64(r.Seed)%99991))%99991 == 0 {
+		if (i+int(uint64(r.Seed)%99991))%99991 == 4242 && i > 0 {
 			specs, _ := runParse(p, "Accept")
 			r.Sample(map[string]any{"case": c, "observed": specsString(specs)})
 		}
